@@ -438,7 +438,11 @@ def run(ctx):
         if not flat_first:
             pair.reverse()
         for ann, v0, d in pair:
-            v1 = vector(roundtrip(ann, route))
+            try:
+                back = roundtrip(ann, route)
+            except BaseException as e:  # noqa: BLE001
+                raise Violation("roundtrip-raised", dict(d, route=route), f"{route} of {describe(d)} raised {type(e).__name__}: {e}")
+            v1 = vector(back)
             ctx.note(["lookalike", d, route, flat_first], True, classes=["lookalike-pair", f"route-{route}"])
             if v1 != v0:
                 i = next(i for i, (x, y) in enumerate(zip(v0, v1)) if x != y)
